@@ -25,8 +25,8 @@
    * same_time x y            = both absent, or two strings that time.Time parses to the
                                 same civil time and zone offset (same instant). *)
 From Coq Require Import ZArith List String.
-From GSP Require Import Base.Prelude Codec.Desc Codec.Json Codec.Time Codec.Model Codec.Theory
-  Codec.Lossless Codec.Inst Codec.W3C Generated.Structs.
+From GSP Require Import Base.Prelude Value.Time Codec.Desc Codec.Json Codec.JsonTheory Codec.Time Codec.Model Codec.Theory
+  Codec.Lossless Codec.Roundtrip Codec.Inst Codec.W3C Generated.Structs.
 Import ListNotations.
 Open Scope string_scope.
 
@@ -43,13 +43,11 @@ Print Assumptions C14_descriptors_lossless.
 (* For every document of the supported shape: it decodes, Merklize's document and the
    original-minus-proof document exist, and they have the same members: equal values
    (as normalised JSON) except that absent optionals may be null in the original and the
-   two dates may be re-spelled (same instant, same offset).  The two hypotheses are about
-   external code: float64 printing/parsing is idempotent; time.Time printing then
-   parsing gives the time back. *)
+   two dates may be re-spelled (same instant, same offset).  The hypothesis is about
+   external code: printing a float64 and parsing it again is idempotent. *)
 Theorem C14_lossless :
   forall (O : oracles),
   (forall n n', o_renum O n = Some n' -> o_renum O n' = Some n') ->
-  (forall s t s', parse_time s = Some t -> format_time t = Some s' -> parse_time s' = Some t) ->
   forall j, w3c_supported O j ->
   exists c d r,
     cred_decode O j = Ok c /\
@@ -66,7 +64,6 @@ Print Assumptions C14_lossless.
 Theorem C14_same_root :
   forall (R : Type) (mz : json -> R) (O : oracles) (j : json),
   (forall n n', o_renum O n = Some n' -> o_renum O n' = Some n') ->
-  (forall s t s', parse_time s = Some t -> format_time t = Some s' -> parse_time s' = Some t) ->
   (forall d r : members,
      (forall k,
        (k = "expirationDate" \/ k = "issuanceDate" -> same_time (jget_nn k d) (jget_nn k r)) /\
@@ -88,6 +85,62 @@ Theorem C14_proof_independent :
   cred_merklize_doc O c = Ok d -> cred_merklize_doc O c' = Ok d' -> d = d'.
 Proof. exact cred_merklize_doc_independent. Qed.
 Print Assumptions C14_proof_independent.
+
+(* same_time is "same instant" for the merklizer: the xsd:dateTime parser of Value/Time.v
+   (C04_time) returns the same (Unix seconds, nanoseconds) for both spellings *)
+Theorem C14_same_time_same_instant :
+  forall s s' t, parse_time s = Some t -> parse_time s' = Some t ->
+  parse_rfc3339 (str_to_list s) = parse_rfc3339 (str_to_list s') /\ parse_rfc3339 (str_to_list s) <> None.
+Proof. exact same_time_same_instant. Qed.
+Print Assumptions C14_same_time_same_instant.
+
+(* time.Time's JSON codec (model in Codec/Time.v): printing a parsed time and parsing it
+   again gives the same time *)
+Theorem C14_time_roundtrip :
+  forall s t s', parse_time s = Some t -> format_time t = Some s' -> parse_time s' = Some t.
+Proof. exact Codec.TimeTheory.time_roundtrip. Qed.
+Print Assumptions C14_time_roundtrip.
+
+(* json.Unmarshal ; json.Marshal ; json.Unmarshal gives the credential back, for EVERY
+   document the decoder accepts (any shape, any member order / case / duplicates, any list
+   of proofs).  Equal credential = equal proof list, hence the same concrete proof kinds
+   (all_kinds) and the same outcome of anything computed from it.
+   Hypotheses about external code: float64 printing is idempotent; merkletree.Proof's
+   codec is idempotent, never prints null, has no member named "type" and ignores an
+   added "type" member, and its output is normal (strings and booleans).  Known proofs
+   (the three structs, through extractProof's re-marshal of the generic map and the
+   hand-written decoders, Codec/Known.v) and unknown proof types (CommonProof) alike. *)
+Theorem C14_roundtrip :
+  forall (O : oracles),
+  (forall n n', o_renum O n = Some n' -> o_renum O n' = Some n') ->
+  (forall j p, o_mtp O j = Some p -> p <> JNull /\ o_mtp O p = Some p) ->
+  (forall j pm t, o_mtp O j = Some (JObj pm) ->
+     o_mtp O (JObj (mins "type" (JStr t) (msort pm))) = Some (JObj pm) /\
+     (forall a, In a (keys pm) -> fold_eqb a "type" = false)) ->
+  (forall j p, o_mtp O j = Some p -> norm (o_renum O) p = Some p) ->
+  forall j c e,
+  cred_decode O j = Ok c -> cred_encode c = Ok e -> cred_decode O e = Ok c.
+Proof. exact cred_roundtrip. Qed.
+Print Assumptions C14_roundtrip.
+
+(* DID documents (authentication entries as reference strings or embedded methods, state
+   info, GIST proof): the same round trip, for every decoded document that is canonical
+   (no omitempty list / map member is empty-but-present: `"service": []` decodes to an
+   empty slice, is dropped by omitempty and comes back as nil). *)
+Theorem C14_did_roundtrip :
+  forall (O : oracles),
+  (forall n n', o_renum O n = Some n' -> o_renum O n' = Some n') ->
+  (forall j p, o_mtp O j = Some p -> p <> JNull /\ o_mtp O p = Some p) ->
+  (forall j pm t, o_mtp O j = Some (JObj pm) ->
+     o_mtp O (JObj (mins "type" (JStr t) (msort pm))) = Some (JObj pm) /\
+     (forall a, In a (keys pm) -> fold_eqb a "type" = false)) ->
+  (forall j p, o_mtp O j = Some p -> norm (o_renum O) p = Some p) ->
+  forall j c e,
+  did_decode O j = Ok c ->
+  canon (ccanon1 repo_env) (KStruct d_DIDDocument) (VStruct c) ->
+  did_encode c = Ok e -> did_decode O e = Ok c.
+Proof. exact did_roundtrip. Qed.
+Print Assumptions C14_did_roundtrip.
 
 (* non-vacuity: a concrete document is in the supported shape *)
 Theorem C14_supported_shape_inhabited : w3c_supported ex_oracles ex_doc.
